@@ -259,6 +259,35 @@ func c14Eval(c *C14Case, al align.Alignment) *statSet {
 		s.d("NumGapsUniquePerSequence(other)", fmt.Sprint(x1, x2, x3, xe))
 		y1, y2, y3, ye := al.NumMutationsUniquePerSequence(p2)
 		s.d("NumMutationsUniquePerSequence(other)", fmt.Sprint(y1, y2, y3, ye))
+		// a profile that does not cover the alignment - one site short or long in every row, or in one row only (a
+		// profile file whose last line was cut) - has no count for some column: no number can equal the definition there
+		for _, kind := range []string{"all-short", "all-long", "one-row-short"} {
+			nc := p2.NbCharacters()
+			if L < 2 || nc < 2 {
+				break
+			}
+			p3 := align.NewCountProfile()
+			hdr := make([]uint8, nc)
+			for i := range hdr {
+				hdr[i], _ = p2.NameAt(i)
+			}
+			p3.SetHeader(hdr)
+			for i := 0; i < nc; i++ {
+				cs, _ := p2.CountsAt(i)
+				for site, v := range cs {
+					if site == L-1 && (kind == "all-short" || (kind == "one-row-short" && i == nc-1)) {
+						continue
+					}
+					p3.AppendCount(i, v)
+				}
+				if kind == "all-long" {
+					p3.AppendCount(i, 0)
+				}
+			}
+			_, _, _, e1 := al.NumGapsUniquePerSequence(p3)
+			_, _, _, e2 := al.NumMutationsUniquePerSequence(p3)
+			s.d("profile-not-covering("+kind+")", fmt.Sprint(e1 != nil, e2 != nil))
+		}
 	}
 	g1, g2, g3, gerr = al.NumGapsUniquePerSequence(nil)
 	s.d("NumGapsUniquePerSequence(nil)", fmt.Sprint(g1, g2, g3, gerr))
@@ -1044,6 +1073,15 @@ func (c14) Run(ctx *Ctx, ci interface{}) (o Outcome) {
 			return
 		}
 		o.Add("mutation_lists_checked", int64(n))
+	}
+	for _, kind := range []string{"all-short", "all-long", "one-row-short"} {
+		if got, ok := s0.disc["profile-not-covering("+kind+")"]; ok {
+			o.Add("profiles_not_covering_the_alignment", 1)
+			if got != "true true" {
+				o.Fail("definition:profile-does-not-cover-alignment", "a count profile that is %s for an alignment of %d sites: NumGapsUniquePerSequence / NumMutationsUniquePerSequence report an error = %s (both must: there is no count to compare with at the last site)\n%s", kind, L, got, desc())
+				return
+			}
+		}
 	}
 	// codon-by-codon list: where neither the reference nor the row holds a gap the definition leaves no choice -
 	// codon k of the row against codon k of the reference, an entry when the amino acids differ (goalign's own
